@@ -112,5 +112,16 @@ package ice
 //@   site call seen#1 assert refreshes-the-inbound-timestamp: arg0 == false
 //@   site call seen#1 ghost refreshed := true
 //@   ensures a-cache-hit-refreshes-the-remotes-liveness: result ==> refreshed
+//@   ghostvar zoneless bool = false
+//@   site call Zone#1 ghost zoneless := result == ""
+//@   site call toAddrPortKey#1 assert C07 the-key-has-no-room-for-a-zone-so-only-zoneless-sources-use-the-cache: zoneless && arg0 == addr
+//@   ensures C07 a-zoned-source-never-hits-the-cache: result ==> zoneless
+
+//@ func (*candidateBase).addRemoteCandidateCache
+//@   props C07
+//@   opt nosafety
+//@   ghostvar storeZoneless bool = false
+//@   site call Zone#1 ghost storeZoneless := result == ""
+//@   site call toAddrPortKey#1 assert only-zoneless-sources-are-cached: storeZoneless && arg0 == srcAddr
 
 //@ enumerate C17 stores ice.Agent.tcpPriorityOffset in (*AgentConfig).initWithDefaults, WithTCPPriorityOffset
